@@ -401,6 +401,17 @@ def aux_pairing(ctx):
     rel = Dd.stores("aux.main")
     ctx.check(Dd.always_then([Dd.cfg.entry], xa) and bool(rel) and Dd.dominated(rel, xa), "T2-auxpair", dd,
               "Suspender.deactivate: aux.exitAll() then release", "a deactivated aux is fully exited, then released")
+    # Suspender.action uses aux.done as its "not running" flag: every deactivation must leave done True (exitAll sets it only
+    # when it is not an abort)
+    calls = [c for n, c in Dd.calls("aux.exitAll")]
+    plain = all(not c.args and all(k.arg == "abort" and isinstance(k.value, ast.Constant) and not k.value.value for k in c.keywords) for c in calls)
+    ea_ = ctx.fn("framing", "Framer.exitAll")
+    Ea = FuncView(ctx, ea_)
+    dset = [n for n in Ea.stores("done") if isinstance(n.ast, ast.Assign) and isinstance(n.ast.value, ast.Constant) and n.ast.value.value is True]
+    ctx.check(plain and bool(dset) and all("abort" not in f.replace("not abort", "") for n in dset for f in Ea.facts(n)), "T2-auxpair", dd,
+              "Suspender.deactivate exits the aux as completed (exitAll() without abort) so aux.done becomes True",
+              "a conditional aux cut short by the exit of its main frame but left with done == False is taken for still running: on "
+              "re-entry of the main frame the later clauses and lower frames are skipped forever and the aux is never started again")
 
 
 # ------------------------------------------------------------------------ C08
@@ -704,9 +715,23 @@ def suspender(ctx):
     ctx.rule("T3-active", "active region: segue -> recur, needs are not evaluated; on completion deactivate then "
              "framer.reactivate() and None (resume same tick, no enter)")
     ctx.rule("T1-buildaux", "buildAux refuses `clone` together with a condition")
+    ctx.rule("T9-suspended", "while a conditional aux runs, transitions are computed against the truncated .actives (or the "
+             "suspender re-truncates every tick): a transition may not re-activate frames below the main frame")
     sa = ctx.fn("acting", "Suspender.action")
     S = FuncView(ctx, sa)
     cfg = S.cfg
+    ta = ctx.fn("acting", "Transiter.action")
+    TV = FuncView(ctx, ta)
+    ex_ = TV.need(TV.calls(("framing.Framer.ExEn", "framer.ExEn", "Framer.ExEn")), "Framer.ExEn(...) in Transiter.action")
+    n0, c0 = ex_[0]
+    a0 = TV.sym(c0.args[0], n0) if c0.args else None
+    full = a0 is not None and any(isinstance(x, ast.Attribute) and x.attr == "outline" for x in ast.walk(a0)) and \
+        not any(isinstance(x, ast.Attribute) and x.attr == "actives" for x in ast.walk(a0))
+    chg = [n for n, c in S.calls("framer.change")]
+    ctx.check((not full) or len(chg) >= 2, "T9-suspended", c0, "Transiter.action: ExEn(%s, far)" % (src(a0) if a0 is not None else "?"),
+              "computing a transition from the full outline while a conditional aux has truncated .actives lets a clause of a frame "
+              "above the main frame transit to a frame *below* it: activate(far) restores the full outline, the lower frame is "
+              "entered and recurs every tick although the aux is still running (the suspender truncates only once, at aux start)")
     dt = S.need(S.tests(lambda t: src(t) == "aux.done"), "`if aux.done` tests")
     ndt = S.need(S.tests(lambda t: src(t) == "not aux.done"), "`if not aux.done` test")
     first = dt[0]
